@@ -17,7 +17,7 @@ EXPLANATION = (
     'bodies. ORD-REFUSE: on no path may a refusal point (detach() or from_children() of a Borrowed node, an explicit raise of '
     'ValueError/KeyError/IndexError/TypeError, a caller-supplied index into a model list, _parse_value of caller text) follow a '
     'mutation point (store structure, token text, tree shape or claim flag of a Borrowed object). Loop bodies are unrolled twice, '
-    'so a batch that applies item k and refuses item k+1 is found. It does NOT decide which exception type is raised, and '
+    'so a batch that applies item k and refuses item k+1 is found. TS-GATE: the store gate of _splice refuses (before any mutation) every token that already has a handle unless it belongs to this store and lies in the replaced range, so a node that lives elsewhere can never be spliced in without going through detach(). It does NOT decide which exception type is raised, and '
     'collections.abc mixin methods (reverse, __iadd__, update ...) are covered only through the primitives they call.')
 
 REFUSALS = ('detach() / from_children() of a Borrowed node (node already lives elsewhere); explicit raise of ValueError, KeyError, '
@@ -56,6 +56,8 @@ def run(ctx: RuleContext, p: Program) -> None:
         ctx.fail('ORD-REFUSE', fn, f'{mstmt}  -->  {rstmt}',
                  f'in {fn}, `{mstmt}` mutates the document and `{rstmt}` can still refuse afterwards ({why}): a refused call '
                  f'leaves the document changed', '', path)
+    from . import tokenstore as T
+    ctx.try_rule(T.rule_ts_gate, T.TS(p), 'TS-GATE')
     st = it.stats
     ctx.stats['effect_interpreter'] = {
         'entries': n, 'mutating_entries': mutating, 'skipped_same_signature_in_quick': ents.get('_skipped_same_signature', 0),
